@@ -142,16 +142,22 @@ def rule_r3(ctx: Ctx) -> None:
 def rule_r4(ctx: Ctx) -> None:
     repo = ctx.repo
     ctx.rule("C16.R4", "enumeration inside RepetitionOperator/RangeRepetitionOperator.modulo uses a count reduced by the divisor and ranges over the child's residue set", min_instances=2)
-    from ..linform import prove_count_reduction
+    from ..linform import iteration_bounds, prove_count_reduction
 
     for cname, kattr in (("RepetitionOperator", None), ("RangeRepetitionOperator", None)):
         c = ctx.cls(SYM + "." + cname)
         fn = c.methods.get("modulo")
         if fn is None:
             raise AnalysisError("anchor %s.modulo missing" % cname)
+        # every loop / enumeration whose trip count depends on the repetition count is bounded by the divisor
+        its = iteration_bounds(c, fn)
+        for it in its:
+            ctx.check(it["bounded"], fn.short, "%s: count = %s" % (it["construct"], it["count"]), "the number of iterations / enumerated copies must be bounded by a function of the divisor (<= 4*divisor), not by the repetition count", "%s:%d" % (fn.module.relpath, it["line"]), it)
+        ctx.check(True, fn.short, "%d count-dependent iteration construct(s)" % len(its), "scan completed", fn.where(), nontrivial=False)
+        # where the multicombination enumeration is used, it ranges over the child's residues for the same divisor
         res = prove_count_reduction(ctx, c, fn)
-        ctx.check(res["bounded"], fn.short, "enumeration count = %s" % res["count_expr"], "the number of enumerated copies must be bounded by a function of the divisor (<= 4*divisor), not by the repetition count", fn.where(), res)
-        ctx.check(res["collection_is_residue_set"], fn.short, "enumerated collection = %s" % res["collection"], "the enumerated collection must be the child's residue set for the same divisor", fn.where(), res.get("collection"))
+        if res.get("collection") is not None:
+            ctx.check(res["collection_is_residue_set"], fn.short, "enumerated collection = %s" % res["collection"], "the enumerated collection must be the child's residue set for the same divisor", fn.where(), res.get("collection"))
 
 
 def rule_r5(ctx: Ctx) -> None:
